@@ -383,10 +383,17 @@ func suiteDaemon(h *H) {
 	mk(filepath.Join(out, "cdir", canaryName+"-2"), canarySecret+"-2")
 	mk(filepath.Join(base, canaryName+"-top"), canarySecret+"-top")
 	mods := filepath.Join(base, "mods")
+	// the modules hold the same names with the same sizes and modification times but their own contents: whatever
+	// a daemon remembers from one connection (or one module) must not show up in what it sends for another
+	modT := time.Unix(1400000000, 0)
 	populate := func(dir string) {
-		mk(filepath.Join(dir, "a.txt"), "inside-a")
-		mk(filepath.Join(dir, "sub", "inner.txt"), "inside-inner")
-		mk(filepath.Join(dir, "sub", "deep", "x"), "inside-x")
+		tag := (filepath.Base(dir) + "__")[:2]
+		mk(filepath.Join(dir, "a.txt"), "inside-a-"+tag)
+		mk(filepath.Join(dir, "sub", "inner.txt"), "inside-inner-"+tag)
+		mk(filepath.Join(dir, "sub", "deep", "x"), "inside-x-"+tag)
+		for _, f := range []string{"a.txt", "sub/inner.txt", "sub/deep/x"} {
+			os.Chtimes(filepath.Join(dir, f), modT, modT)
+		}
 		os.Symlink("../../outside", filepath.Join(dir, "lout"))
 		os.Symlink(out, filepath.Join(dir, "labs"))
 		os.Symlink("../../outside/victimfile", filepath.Join(dir, "lfile"))
@@ -397,6 +404,7 @@ func suiteDaemon(h *H) {
 	for _, m := range []string{"ro", "rw", "m", "mx"} {
 		populate(filepath.Join(mods, m))
 	}
+	populated := time.Now()
 	mapfs := fstest.MapFS{"f.txt": {Data: []byte("fs-inside"), Mode: 0o644}, "d/g": {Data: []byte("fs-g"), Mode: 0o644}}
 	config := []rsyncd.Module{
 		{Name: "ro", Path: filepath.Join(mods, "ro")},
@@ -477,6 +485,44 @@ func suiteDaemon(h *H) {
 				}
 				pullCase(module, req, os_, "")
 			}
+		}
+	}
+	// one long-running daemon, several modules, several connections: the checksums of a --checksum listing are
+	// those of the requested module's own files, whichever modules were listed before over this daemon (the files
+	// have been left alone for a few seconds by then, like files of a real module)
+	if w := 2500*time.Millisecond - time.Since(populated); w > 0 {
+		time.Sleep(w)
+	}
+	for round := 0; round < 2; round++ {
+		for _, module := range []string{"ro", "rw", "m", "mx", "rw", "ro"} {
+			args := []string{"--server", "--sender", "-rlc", ".", module + "/"}
+			res := talk(addr, "@RSYNCD: 27", module, args, "pull", optsets[1].o, false, "", nil)
+			v := leak(res.raw)
+			regular := 0
+			for _, e := range res.listing {
+				if e.mode&0o170000 != 0o100000 {
+					continue
+				}
+				regular++
+				own, err := os.ReadFile(filepath.Join(mods, module, string(e.name)))
+				if err != nil {
+					continue
+				}
+				if !bytes.Equal(e.sum[:], md4sum(own)) && v == "" {
+					v = fmt.Sprintf("FAIL[C06] the checksum sent for %q of module %s is not the checksum of that module's file", e.name, module)
+					for _, other := range []string{"ro", "rw", "m", "mx"} {
+						if ob, err := os.ReadFile(filepath.Join(mods, other, string(e.name))); err == nil && other != module && bytes.Equal(e.sum[:], md4sum(ob)) {
+							v += " (it is the checksum of module " + other + "'s file of the same name)"
+							break
+						}
+					}
+				}
+			}
+			if regular < 3 && v == "" {
+				v = fmt.Sprintf("FAIL[C06] a --checksum listing of module %s has %d regular files, expected 3 (%s)", module, regular, res.class)
+			}
+			h.emit(fmt.Sprintf("!daemon-xmod seed=%d round=%d module=%s", h.seed, round, module), res.class, v, true)
+			h.stat("daemon.xmod")
 		}
 	}
 	// module names that are prefixes of one another, and the prefix trimming
